@@ -12,7 +12,7 @@ import traceback
 
 ROOT = os.path.dirname(os.path.dirname(os.path.abspath(__file__)))
 NATIVE_BUILDABLE = {'Packet', 'Payload'}
-STRUCTURAL = ('pre@callsite', 'frame', 'inv-init', 'inv-keep', 'unexpected-exception', 'variant',
+STRUCTURAL = ('pre@callsite', 'frame', 'assert', 'inv-init', 'inv-keep', 'unexpected-exception', 'variant',
               'raises', 'no-raise')
 
 
@@ -32,7 +32,8 @@ def _budget(tier):
 
 def work_function(args):
     """Runs in a worker process: one function under contract."""
-    qualname, tier, prop = args
+    qualname, tier, prop = args[:3]
+    shard = args[3] if len(args) > 3 else None
     import z3
     from . import core, solve
     from .contract import REG
@@ -41,6 +42,7 @@ def work_function(args):
     out = {'func': qualname, 'results': [], 'error': None, 'paths': 0}
     try:
         eng = core.Engine()
+        eng.shard = shard
         eng.known = [k for k in load_known_findings() if k.get('status') == 'open']
         mod, cls, node = eng.src.find(qualname)
         out['file'] = os.path.relpath(mod.path, '/repo')
@@ -53,6 +55,7 @@ def work_function(args):
         obls, npaths = eng.verify_function(qualname)
         out['paths'] = npaths
         out['libuse'] = sorted(eng.libuse)
+        out['dropped'] = list(eng.dropped)
         out['gen_s'] = time.time() - t0
         out['prune'] = eng.stats
         b = _budget(tier)
@@ -129,14 +132,46 @@ def run_property(prop, tier='quick', seed=0, jobs=12):
     pm = importlib.import_module('props.' + prop)
     funcs = list(pm.FUNCTIONS)
     lemmas = [l.name for l in REG.lemmas if prop in l.props]
-    tasks = [(work_function, (q, tier, prop)) for q in funcs] + \
-            [(work_lemma, (n, tier)) for n in lemmas]
+    tasks = []
+    for q in funcs:
+        c = REG.contracts.get(q)
+        n = getattr(c, 'shards', 1) if c is not None else 1
+        if n > 1:
+            tasks += [(work_function, (q, tier, prop, (i, n))) for i in range(n)]
+        else:
+            tasks.append((work_function, (q, tier, prop)))
+    tasks += [(work_lemma, (n, tier)) for n in lemmas]
     ctx = mp.get_context('fork')
     from . import solve
     b = _budget(tier)
     with ctx.Pool(jobs) as pool:
         asyncs = [pool.apply_async(f, (a,)) for f, a in tasks]
         outs = [a.get() for a in asyncs]
+        # merge the shards of one function (obligations of the shared path prefix are deduplicated)
+        merged = {}
+        order = []
+        for o in outs:
+            k = o['func']
+            if k not in merged:
+                merged[k] = o
+                order.append(k)
+                o['_ids'] = set(r['id'] for r in o['results'])
+                continue
+            m = merged[k]
+            m['paths'] = (m.get('paths') or 0) + (o.get('paths') or 0)
+            m['wall_s'] = max(m.get('wall_s', 0), o.get('wall_s', 0))
+            if o.get('error') and not m.get('error'):
+                m['error'] = o['error']
+                m['crash'] = o.get('crash')
+            m['libuse'] = sorted(set(m.get('libuse', [])) | set(o.get('libuse', [])))
+            for r in o['results']:
+                if r['id'] not in m['_ids']:
+                    m['_ids'].add(r['id'])
+                    m['results'].append(r)
+        outs = [merged[k] for k in order]
+        for o in outs:
+            if o.get('paths') == 0 and not o.get('error') and not o.get('trusted'):
+                o['error'] = 'out-of-subset/contract drift: no feasible path'
         # stage 2: obligations the short in-process z3 attempt left open
         open_ = [(o, r) for o in outs for r in o['results'] if r.get('smt2')]
         res2 = pool.map(solve.solve_text,
@@ -175,6 +210,7 @@ def run_property(prop, tier='quick', seed=0, jobs=12):
                'in_subset': o['error'] is None,
                'obligations': 0, 'discharged': 0, 'wall_s': round(o.get('wall_s', 0), 2)}
         libuse.update(o.get('libuse', []))
+        trusted.extend(o.get('dropped', []))
         if o['error']:
             row['error'] = o['error'][-1500:]
             (crashes if o.get('crash') else undecided).append((o['func'], o['error']))
